@@ -389,7 +389,16 @@ class Gen:
             if lv and v == lv[-1] and ctx.get("last_limit") is not None and rng.random() < 0.6:
                 lim = ctx["last_limit"]  # ... and the same limit: two loops with identical headers
             c2 = dict(ctx, inloop=True, loopvars=lv + [v], ploop_ok=False, last_limit=lim)
-            return {"k": "cloop", "var": v, "limit": lim, "body": self.gen_block(depth - 1, callees, c2)}
+            body = self.gen_block(depth - 1, callees, c2)
+            withp = [t for t in callees if any(ty == "P" for _, ty in self.sigs[t])]
+            if withp and self.focus and "call" in self.focus and rng.random() < 0.4:
+                # a task called once per iteration with the element the counting variable selects
+                t = rng.choice(withp)
+                body.insert(rng.randint(0, len(body)), {"k": "call", "name": t, "outs": [],
+                            "ins": [(["r", "parts", "[" + v + "]"] if ty == "P" else self.gen_param(ty, lv + [v])) for _, ty in self.sigs[t]]})
+                if isinstance(lim, int) and lim < 2:
+                    lim = rng.choice([2, 3])
+            return {"k": "cloop", "var": v, "limit": lim, "body": body}
         if k == "wloop":
             c2 = dict(ctx, inloop=True, ploop_ok=False)
             return {"k": "wloop", "e": gen_guard(rng), "body": self.gen_block(depth - 1, callees, c2)}
